@@ -342,7 +342,11 @@ def process_candidates(prop, engine, sim, cands, outdir, seed, tier, max_new=4,
         groups.setdefault((c.get('class'), c.get('sig')), []).append(c)
     violations = []
     known_hits = {}
-    for (cls, sig), cs in sorted(groups.items(), key=lambda kv: str(kv[0])):
+    race_confirmed = False
+    # Data races first: they explain nondeterminism of anything that follows.
+    order = sorted(groups.items(),
+                   key=lambda kv: (0 if kv[0][0] == 'data_race' else 1, str(kv[0])))
+    for (cls, sig), cs in order:
         k = match_known(known, prop, sig)
         if k is not None:
             known_hits[sig] = known_hits.get(sig, 0) + len(cs)
@@ -363,7 +367,17 @@ def process_candidates(prop, engine, sim, cands, outdir, seed, tier, max_new=4,
         r2 = exec_plans(sim, engine, [plan], outdir, 'gate2', setarch=True)[0]
         ok1 = has_violation(r1, prop, cls, sig)
         ok2 = has_violation(r2, prop, cls, sig)
-        if not (ok1 and ok2 and r1.get('hash') == r2.get('hash')):
+        # A data race is itself a source of nondeterminism (racy code is UB):
+        # the finding must reproduce, the result hash need not.
+        hash_ok = r1.get('hash') == r2.get('hash') or cls == 'data_race'
+        if race_confirmed and not (ok1 and ok2 and hash_ok):
+            # A consequence of the race already reported (racy code is UB, its
+            # symptoms need not replay): listed, not gated.
+            violations.append(dict(sig=sig, cls=cls, replay=None,
+                                   note='symptom of the reported data race; does not '
+                                        'replay identically'))
+            continue
+        if not (ok1 and ok2 and hash_ok):
             raise MachineryFault(
                 'NONDETERMINISTIC: candidate %s/%s did not reproduce identically '
                 '(run1 %s hash %s, run2 %s hash %s); plan %s' %
@@ -404,6 +418,8 @@ def process_candidates(prop, engine, sim, cands, outdir, seed, tier, max_new=4,
         if rc != 1:
             raise MachineryFault('replay of %s did not reproduce: %s' % (path, msg))
         violations.append(dict(sig=sig, cls=cls, replay=path, count=len(cs)))
+        if cls == 'data_race':
+            race_confirmed = True
     return violations, known_hits
 
 
@@ -419,7 +435,7 @@ def replay_file(path, quiet=False):
     r = exec_plans(sim, engine, [plan], outdir, 'replay')[0]
     v = doc['violation']
     ok = has_violation(r, prop, v['cls'], v['signature'])
-    same_hash = r.get('hash') == v.get('hash')
+    same_hash = r.get('hash') == v.get('hash') or v['cls'] == 'data_race'
     if ok and same_hash:
         if not quiet:
             log('VIOLATION property=%s replay=%s' % (prop, path))
@@ -457,7 +473,8 @@ def merge_hashlog(logdir):
     return pairs
 
 
-def determinism_audit(sim, engine, tier, seed, outdir, sample_mod, extra=None):
+def determinism_audit(sim, engine, tier, seed, outdir, sample_mod, extra=None,
+                      tolerate=False):
     """Same sampled runs twice: W=1 and W=16, different processes, second
     without ASLR; per-run event-log hashes must agree."""
     logs = []
@@ -477,10 +494,13 @@ def determinism_audit(sim, engine, tier, seed, outdir, sample_mod, extra=None):
         raise MachineryFault('determinism audit executed no runs')
     diff = [i for i in a if a[i] != b.get(i)] + [i for i in b if i not in a]
     if diff:
-        raise MachineryFault('NONDETERMINISTIC: %d of %d sampled runs differ between '
-                             'W=1 and W=%d/no-ASLR executions, e.g. run %s' %
-                             (len(diff), len(a), workers(), diff[:5]))
-    return len(a)
+        msg = ('NONDETERMINISTIC: %d of %d sampled runs differ between '
+               'W=1 and W=%d/no-ASLR executions, e.g. run %s' %
+               (len(diff), len(a), workers(), diff[:5]))
+        if tolerate:
+            return len(a), msg
+        raise MachineryFault(msg)
+    return (len(a), None) if tolerate else len(a)
 
 
 # ------------------------------------------------------------------ chan -----
